@@ -34,8 +34,9 @@ def scenarios(ctx, n):
         metrics = rnd.sample([10, 20, 5], len(pick))
         routes = [[i, m] for i, m in zip(pick, metrics)]
         sid += 1
-        core.append({"id": sid, "ifs": ifs, "routes": routes, "fIface": rnd.choice([0, 0, 1, nif]), "fSrcIP": rnd.random() < 0.25, "fSrcMAC": rnd.random() < 0.25,
+        core.append({"id": sid, "ifs": ifs, "routes": routes, "fIface": rnd.choice([0, 0, 1, nif]), "fSrcIP": rnd.random() < 0.3, "fSrcV6": rnd.random() < 0.35, "fSrcMAC": rnd.random() < 0.25,
                      "target": rnd.choice(targets)})
+        core[-1]["fSrcV6"] = core[-1]["fSrcV6"] and core[-1]["fSrcIP"]
     # fixed core: one scenario per rule of the statement
     fixed = [
         ([("veth", ["A24", "A16"]), ("tun", ["B24"])], [[1, 20], [2, 10]], 0, "inA24"),
@@ -52,15 +53,15 @@ def scenarios(ctx, n):
         ([("tun", ["A24"])], [], 0, "inA24"),
     ]
     for ifs, routes, fi, tg in fixed:
-        for fs, fm in ((False, False), (True, False), (False, True)):
+        for fs, fm, f6 in ((False, False, False), (True, False, False), (False, True, False), (True, False, True), (True, True, True)):
             sid += 1
-            core.append({"id": sid, "ifs": [{"kind": k, "addrs": a} for k, a in ifs], "routes": routes, "fIface": fi, "fSrcIP": fs, "fSrcMAC": fm, "target": tg})
+            core.append({"id": sid, "ifs": [{"kind": k, "addrs": a} for k, a in ifs], "routes": routes, "fIface": fi, "fSrcIP": fs, "fSrcV6": f6, "fSrcMAC": fm, "target": tg})
     return core
 
 
 def run(ctx):
     quick = ctx.tier == "quick"
-    ctx.cov["rule"] = ("relation: every configuration with <= 2 interfaces x <= 1 address (thorough: 2 addresses); namespaces: 36 fixed rule scenarios + seeded random "
+    ctx.cov["rule"] = ("relation: every configuration with <= 2 interfaces x <= 1 address (thorough: 2 addresses); namespaces: 60 fixed rule scenarios (incl. an IPv6 value of --srcip) + seeded random "
                        "configurations (quick 250, thorough 2500); distinct = configurations")
     r = ctx.tlc("MC_Iface", "MC_Iface", workers=1, timeout=1800)
     if not r.no_error or r.assume_false:
